@@ -3,6 +3,7 @@ import EpdVerif.Scenario
 import EpdVerif.Pure
 import EpdVerif.Oracle.Pure
 import EpdVerif.Oracle.All
+import EpdVerif.Props.Structural
 /-!
 # epdmodel — runs the Lean model on scenario lines and compares it with the harness trace
 
@@ -190,6 +191,37 @@ def main (args : List String) : IO UInt32 := do
         | none => false
       let sup := ",".intercalate ((opsS.filter fun (_, o) => supports o).map fun (n, o) => if impl o then n else n ++ "!")
       IO.println s!"P {p.name} {p.width} {p.height} {fam} {if p.single then 1 else 0} {if p.busyLow then 1 else 0} {p.colors} {raise} {if Spec.busyLevel p.family then 1 else 0} {sup}"
+    return 0
+  | "structural" :: rest => do
+    -- facts about every (panel, op) on canonical arguments: which per-panel theorems to state
+    let f : Feat := { v2 := rest.contains "v2", alt := rest.contains "alt" }
+    for p in panels f do
+      let n := (p.width + 7) / 8 * p.height
+      let b : Bytes := List.replicate (if p.name == "epd7in5b_v2" then 2 * n else n) 0
+      let opsS : List (String × Op) := [("new", .new), ("wake", .wake), ("sleep", .sleep), ("disp", .disp), ("clear", .clear),
+        ("wait", .wait), ("bg", .bg 0), ("lutnone", .lut none), ("lutfull", .lut (some .full)), ("lutquick", .lut (some .quick)),
+        ("upd", .upd b), ("updisp", .updisp b), ("old", .old b), ("newf", .newf b), ("dispnew", .dispnew),
+        ("updispnew", .updispnew b), ("color", .color b b), ("achro", .achro b), ("chro", .chro b), ("base", .base b),
+        ("refreshfull", .refresh .full), ("refreshquick", .refresh .quick), ("border", .border 0),
+        ("basedisp", .basedisp b none), ("disppart", .disppart)]
+      let fam := Props.famOf p
+      let raise := Spec.raiseSet p.name p.family
+      let lvl := Spec.busyLevel p.family
+      for (name, op) in opsS do
+        -- over the control-relevant driver field combinations
+        let ds : List DState := [.full, .quick].flatMap fun r => [false, true].flatMap fun o => [false, true].flatMap fun pf =>
+          (List.range p.colors).map fun bgc => { p.init with refresh := r, isOn := o, partialFlag := pf, bg := bgc }
+        match p.prog p.init op with
+        | none => pure ()
+        | some [Act.panic] => pure ()
+        | some _ =>
+          let progs := ds.filterMap fun d => p.prog d op
+          let all (g : List Act → Bool) : Bool := progs.all g
+          let s0 := progs.map fun a => Props.C05.absSafe fam raise lvl a false
+          let s1 := progs.map fun a => Props.C05.absSafe fam raise lvl a true
+          let show1 (l : List (Option Bool)) : String :=
+            if l.all (· == some false) then "F" else if l.all (· == some true) then "T" else if l.all (·.isSome) then "M" else "x"
+          IO.println s!"S {p.name} {name} resetFirst={all (Props.C11.goodResets true)} resetAny={all (Props.C11.goodResets false)} abs0={show1 s0} abs1={show1 s1} conforms={all (Props.opConforms p (if name.startsWith "lut" then "lut" else if name.startsWith "refresh" then "refresh" else name))}"
     return 0
   | "check" :: sf :: tf :: rest => do
     let rec opt (k : String) : List String → Option String
